@@ -42,6 +42,7 @@ import concurrent.futures, json, os, re, resource, shutil, subprocess, tempfile,
 from vlib import common
 
 FUEL = 20000
+MAX_STDOUT = 40000
 TEXT_TAGS = ("strlit", "error")
 
 # --------------------------------------------------------------------------------------
@@ -89,7 +90,6 @@ def _raise_stack():
             pass
 
 def _run_driver(lines, timeout):
-    common.ensure_driver("miniald")
     p = subprocess.run([common.lean_driver(), "miniald"], input="\n".join(lines) + "\n",
                        capture_output=True, text=True, timeout=timeout, preexec_fn=_raise_stack)
     outs = p.stdout.split("\n")
@@ -103,7 +103,7 @@ def static_counts(prog):
     """counts of generator shapes that no evaluator rule witnesses: stores to / effectful initialisers of
     the never-captured dead-store locals d<N>, unused effectful calls in statement position are counted
     with them; `try` whose handler (or missing catch-all) throws; `try` with `finally`"""
-    c = {"deadstore": 0, "handler-throws": 0, "finally": 0}
+    c = {"deadstore": 0, "handler-throws": 0, "finally": 0, "union-same-type-branches": 0}
     def has_throw(x):
         if isinstance(x, list):
             if x and x[0] == "throw": return True
@@ -114,6 +114,9 @@ def static_counts(prog):
         t = x[0]
         if t in ("assign", "decl") and len(x) >= 3 and isinstance(x[1], str) and _DEAD.match(x[1]):
             c["deadstore"] += 1
+        if t == "unidef" and len(x) == 3:
+            ts = [json.dumps(f[1]) for f in x[2]]
+            if len(ts) != len(set(ts)): c["union-same-type-branches"] += 1
         if t == "try" and len(x) == 6:
             if x[4] == ["none"] or has_throw(x[3]) or has_throw(x[4]): c["handler-throws"] += 1
             if x[5] != ["none"]: c["finally"] += 1
@@ -194,6 +197,10 @@ def model(progs, layout=None, fuel=FUEL, lenient=False, timeout=1800, chunk=64, 
         if d.get("ok") and not (d.get("tokok") and d.get("lexok")):
             d["ok"] = False
             d["reject"] = "renderer-token-check-failed"
+        if d.get("ok") and len(d.get("stdout", "")) > MAX_STDOUT:
+            # the runtime's big-integer printing is quadratic: such a program is not worth the minutes
+            d["ok"] = False
+            d["reject"] = "output-too-large"
     return res
 
 # --------------------------------------------------------------------------------------
@@ -235,6 +242,8 @@ def compile_and_run(build, source, route, opts=(), timeout=120, keep=False, name
         cmd = aldor_cmd(build, route, opts, name)
         res = {"cmd": " ".join(cmd), "dir": d if keep else None}
         rc, out, err = common.run(cmd, cwd=d, timeout=timeout, inp=stdin)
+        out = out.decode("utf-8", "replace") if isinstance(out, bytes) else (out or "")
+        err = err.decode("utf-8", "replace") if isinstance(err, bytes) else (err or "")
         if route == "interp":
             res.update(rc=rc, stdout=out, stderr=err, compile_rc=rc, compile_out="")
         else:
@@ -242,6 +251,8 @@ def compile_and_run(build, source, route, opts=(), timeout=120, keep=False, name
             exe = os.path.join(d, name)
             if rc == 0 and os.path.exists(exe):
                 rc2, out2, err2 = common.run([exe], cwd=d, timeout=timeout, inp=stdin)
+                out2 = out2.decode("utf-8", "replace") if isinstance(out2, bytes) else (out2 or "")
+                err2 = err2.decode("utf-8", "replace") if isinstance(err2, bytes) else (err2 or "")
                 res.update(rc=rc2, stdout=out2, stderr=err2)
             else:
                 res.update(rc="COMPILE-FAILED", stdout=out, stderr=err)
@@ -317,12 +328,14 @@ ALL_FEATURES = ("mi", "int", "bool", "str", "list", "arr", "rec", "uni", "closur
                 "exit", "return", "exn", "overload", "macro", "dom", "default", "deadstore")
 OPTIONAL_FEATURES = ("error", "toplevel-exnval", "uncaught", "file-scope-nesting", "int-dom-param",
                      "risky-tests", "nested-try", "rich-throw-arg", "singleton-bracket", "seq-in-and", "nested-exnval", "return-in-try", "dcall-var-in-try",
-                     "loopvar-test-try")
+                     "loopvar-test-try", "fold-overflow", "bare-const-body", "ret-callee-in-gen")
 
 MI_POOL = [0, 1, -1, 2, 3, 5, 7, 10, 16, 100, 255, 1000, 65535, 2**31 - 1, 2**31, -2**31, 2**32, 2**32 + 1,
-           2**62, 2**63 - 1, -2**63, -2**63 + 1, 2**63 - 2, -(2**62), 3037000500, 4294967296 * 3 + 1]
+           2**62, 2**63 - 1, -2**63, -2**63 + 1, 2**63 - 2, -(2**62), 3037000500, 4294967296 * 3 + 1,
+           3 * 2**31, 2**40, -(2**32), 2**62 + 5, 2**31, 2**32, 2**62, -(2**31) * 3, 2**33, 2**62 + 2**31, 5 * 2**31 + 7]
 INT_POOL = [0, 1, -1, 2, 3, 7, 10, 100, 2**31, 2**32, 2**63 - 1, 2**63, -2**63, -2**63 - 1, 2**64, 2**64 + 1,
-            10**20, -10**20, 10**30 + 7, 2**127 - 1, -(2**100), 123456789012345678901234567890]
+            10**20, -10**20, 10**30 + 7, 2**127 - 1, -(2**100), 123456789012345678901234567890,
+            3 * 2**31, 2**40, -(2**32), 2**62 + 5, 2**62, 2**93 + 5, 2**124]
 DIV_POOL = [1, 2, 3, 5, 7, 10, 16, 255, -2, -3, -7, 1000, 2**31, 2**32 + 1, 2**62, -(2**31)]
 STR_POOL = ["", "a", "abc", "hello world", "x y  z", "q\"uote", "under_score", "__", "_\"", "--", "-- not a comment",
             "{", "}", "( [ {", ";", "a;b", "1+2", "T", "F", "tab?", "#include", "it's", "\\", "%d", "~!@$^&*", "0"]
@@ -344,19 +357,21 @@ def mi(v): return ["mi", v]
 def tkey(t): return json.dumps(t)
 
 class Var:
-    __slots__ = ("name", "ty", "mut", "depth", "protected", "nonempty", "loopvar")
+    __slots__ = ("name", "ty", "mut", "depth", "protected", "nonempty", "loopvar", "cval")
     def __init__(self, name, ty, mut, depth, nonempty=False, loopvar=False):
         self.name, self.ty, self.mut, self.depth = name, ty, mut, depth
         self.protected = False
         self.nonempty = nonempty
         self.loopvar = loopvar
+        self.cval = None
 
 class Fn:
-    __slots__ = ("name", "args", "res", "level", "throws", "bounded", "recursive", "effectful")
+    __slots__ = ("name", "args", "res", "level", "throws", "bounded", "recursive", "effectful", "has_ret")
     def __init__(self, name, args, res):
         self.name, self.args, self.res = name, args, res
         self.level = 0; self.throws = False; self.bounded = False; self.recursive = False
         self.effectful = False
+        self.has_ret = False
 
 class Frame:
     """one function / closure / method body under construction"""
@@ -364,6 +379,7 @@ class Frame:
         self.depth = depth; self.ret = ret; self.kind = kind
         self.frees = []; self.prologue = []; self.level = 0; self.throws = False
         self.in_gen = None
+        self.has_ret = False
 
 class Gen:
     def __init__(self, rng, size=None, features=None):
@@ -514,8 +530,52 @@ class Gen:
         vs = [v for v in self.vars_of(pt) if not v.mut and not v.loopvar]
         a = ["var", self.r.choice(vs).name] if vs and self.chance(0.5) else self.lit(pt)
         if pt in ("mi", "int") and self.chance(0.3):
-            return ["bin", self.r.choice(["add", "sub", "mul"]), a, [pt, self.r.randint(-5, 5)]]
+            return self.no_fold_overflow(["bin", self.r.choice(["add", "sub", "mul"]), a, [pt, self.r.randint(-5, 5)]])
         return a
+
+    # ---- -Q2 weak spots of the compiler (findings q2-*): constant machine-integer arithmetic that
+    # overflows when folded, functions whose body is a bare file-scope constant, callees with `return`
+    # inside generator bodies
+    def cval(self, e):
+        """exact value of a constant machine-integer expression, None if not constant"""
+        if not isinstance(e, list) or not e: return None
+        t = e[0]
+        if t == "mi": return e[1]
+        if t == "var":
+            for v in self.vars:
+                if v.name == e[1]: return v.cval
+            return None
+        if t == "un" and e[1] in ("neg", "abs"):
+            a = self.cval(e[2])
+            return None if a is None else (-a if e[1] == "neg" else abs(a))
+        if t == "bin" and e[1] in ("add", "sub", "mul", "pow", "max", "min"):
+            a, b = self.cval(e[2]), self.cval(e[3])
+            if a is None or b is None: return None
+            if e[1] == "pow": return a ** b if 0 <= b <= 64 else None
+            return {"add": a + b, "sub": a - b, "mul": a * b, "max": max(a, b), "min": min(a, b)}[e[1]]
+        return None
+
+    def no_fold_overflow(self, e):
+        """a constant machine-integer expression whose exact value leaves the word is replaced by the
+        wrapped literal (opt-in "fold-overflow" keeps it)"""
+        if self.on("fold-overflow"): return e
+        v = self.cval(e)
+        if v is not None and not (-2**63 <= v < 2**63) and e[0] != "mi":
+            w = (v + 2**63) % 2**64 - 2**63
+            return mi(w)
+        return e
+
+    def no_bare_const(self, e, ty):
+        """the value of a function body may not be a bare file-scope constant (finding q2-inline-constant-body)"""
+        if self.on("bare-const-body") or not (isinstance(e, list) and e and e[0] == "var"): return e
+        for v in self.vars:
+            if v.name == e[1] and v.depth == 0 and not v.mut:
+                if ty == "mi": return ["bin", "add", e, mi(0)]
+                if ty == "int": return ["bin", "add", e, ["int", 0]]
+                if ty == "str": return ["bin", "concat", e, ["strlit", ""]]
+                if ty == "bool": return ["un", "not", ["un", "not", e]]
+                return self.lit(ty)
+        return e
 
     # ---- literals
     def lit(self, ty):
@@ -554,7 +614,7 @@ class Gen:
         for _ in range(6):
             e = getattr(self, "e_" + k)(ty, d, lvl)
             if e is not None:
-                return e
+                return self.no_fold_overflow(e) if ty == "mi" else e
         return self.leaf(ty, lvl)
 
     def leaf(self, ty, lvl):
@@ -598,6 +658,8 @@ class Gen:
             return self.mk_if(c, self.expr(ty, d - 1, lvl), self.expr(ty, d - 1, lvl), lvl)
         if r < 0.20:
             fs = [f for f in self.fns if tkey(f.res) == tkey(ty) and f.level <= lvl and (not f.throws or self.in_try or self.chance(0.02) and self.on("uncaught"))]
+            if self.frame().in_gen is not None and not self.on("ret-callee-in-gen"):
+                fs = [f for f in fs if not f.has_ret]      # finding q2-return-in-generator-callee
             if fs:
                 return self.call(self.r.choice(fs), d, lvl)
         if r < 0.24 and lvl == 2 and self.on("closure"):
@@ -631,10 +693,10 @@ class Gen:
             for un, fs in self.r.sample(self.unis, len(self.unis)):
                 cand = [f for f, t in fs if tkey(t) == tkey(ty)]
                 vs = self.vars_of(T_named(un))
-                if lvl == 0: vs = [v for v in vs if not v.mut]
+                if lvl == 0: vs = []          # `case` and branch selection read the (shared) union object
                 if cand and vs:
                     v = self.r.choice(vs); tag = self.r.choice(cand)
-                    if v.mut: self.use(1)
+                    self.use(1)
                     return self.mk_if(["case", ["var", v.name], tag], ["uget", ["var", v.name], tag], self.expr(ty, d - 1, lvl), lvl, essential=True)
         if r < 0.43 and lvl >= 1 and (self.on("list") or self.on("arr")) and not self.noif:
             vs = [v for v in self.vars if isinstance(v.ty, list) and v.ty[0] in ("arr", "list") and tkey(v.ty[1]) == tkey(ty)]
@@ -716,7 +778,10 @@ class Gen:
             op = self.r.choice(["quo", "rem", "mod"])
             return ["bin", op, self.expr("int", d - 1, lvl), ["int", self.r.choice(DIV_POOL + [10**20, -(2**64), 2**64 + 1])]]
         if r < 0.62 and not self.hot:
-            return ["bin", "pow", self.expr("int", min(d - 1, 1), lvl), mi(self.r.choice([1, 2, 3, 5, 10, 17, 64]))]
+            # keep big integers printable in reasonable time: large exponents only on literals
+            base = self.leaf("int", lvl)
+            ex = self.r.choice([1, 2, 3, 5, 10, 17, 64]) if base[0] == "int" else self.r.choice([1, 2, 3])
+            return ["bin", "pow", base, mi(ex)]
         if r < 0.70:
             return ["un", self.r.choice(["neg", "abs"]), self.expr("int", d - 1, lvl)]
         if r < 0.82 and self.on("mi"):
@@ -750,8 +815,9 @@ class Gen:
             return ["un", "not", self.expr("bool", d - 1, lvl)]
         if r < 0.86 and self.on("list"):
             return ["un", "isempty", self.expr(T_list(self.r.choice(self.scalar_types())), d - 1, lvl)]
-        if r < 0.92 and self.on("uni") and self.unis:
+        if r < 0.92 and self.on("uni") and self.unis and lvl >= 1:
             un, fs = self.r.choice(self.unis)
+            self.use(1)
             return ["case", self.expr(T_named(un), d - 1, lvl), self.r.choice(fs)[0]]
         return self.leaf(ty, lvl)
 
@@ -834,6 +900,7 @@ class Gen:
                 s = self.stmt(d - 1)
                 if s is not None: stmts.append(s)
         final = self.expr(res, max(d - 1, 0), 2) if res != "unit" else (self.stmt(d - 1) or ["unit"])
+        if res != "unit": final = self.no_bare_const(final, res)
         body = ["seq"] + fr.prologue + stmts + [final] if (stmts or fr.prologue) else final
         del self.vars[saved[0]:]
         self.loop, self.hot, self.in_try, self.handler_vars = saved[1:]
@@ -844,6 +911,7 @@ class Gen:
         return ["lam", ps, res, fr.frees, body]
 
     def call(self, f, d, lvl=2):
+        if f.has_ret: self.frame().has_ret = True
         tys = list(f.args)
         args = self.args_for(tys, d - 1, lvl if f.level < 2 else 0) if f.level == 2 else self.args_for(tys, d - 1, lvl)
         if f.bounded and args:
@@ -990,6 +1058,12 @@ class Gen:
             if vs:
                 v = self.r.choice(vs); self.use(1)
                 return ["setidx", ["var", v.name], ["bin", "mod", self.expr("mi", d - 1, 1), ["un", "len", ["var", v.name]]], self.expr(v.ty[1], d - 1, 0)]
+        if r < 0.52 and self.on("uni") and self.unis and self.chance(0.5):
+            un, fs = self.r.choice(self.unis)
+            vs = self.vars_of(T_named(un))
+            if vs:
+                v = self.r.choice(vs); f, t = self.r.choice(fs); self.use(2)
+                return ["setfield", ["var", v.name], f, self.expr(t, d - 1, 0)]
         if r < 0.55 and self.on("rec") and self.recs:
             rn, fs = self.r.choice(self.recs)
             vs = self.vars_of(T_named(rn))
@@ -1012,11 +1086,14 @@ class Gen:
         if r < 0.88 and fr.ret is not None and fr.in_gen is None and self.on("return") and fr.ret != "unit" \
                 and (not (self.in_try or self.in_handler) or self.on("return-in-try")):
             c = self.expr("bool", d - 1, 1)
+            fr.has_ret = True
             return ["if", c, ["ret", self.expr(fr.ret, d - 1, 1)], ["unit"]]
         if r < 0.91 and fr.in_gen is not None and not self.in_try:
             return ["yield", self.expr(fr.in_gen, d - 1, 1)]
         if r < 0.95:
             fs = [f for f in self.fns if (not f.throws or self.in_try) and (f.res == "unit" or self.chance(0.3)) and not (isinstance(f.res, list) and f.res[0] == "gen")]
+            if fr.in_gen is not None and not self.on("ret-callee-in-gen"):
+                fs = [f for f in fs if not f.has_ret]
             if fs: return self.call(self.r.choice(fs), d)
         if r < 0.98 and self.on("exn") and self.exns and fr.in_gen is None and (fr.kind != "top" or self.on("file-scope-nesting")) \
                 and (not (self.in_handler or self.in_try) or self.on("nested-try")):
@@ -1139,7 +1216,16 @@ class Gen:
         if self.on("uni"):
             for _ in range(self.r.choice([0, 1, 1, 2])):
                 n = self.fresh("U")
-                ts = self.r.sample(self.scalar_types() + ([T_list("mi")] if self.on("list") else []), self.r.randint(1, min(3, len(self.scalar_types()))))
+                pool = self.scalar_types() + ([T_list("mi")] if self.on("list") else [])
+                if self.chance(0.65):
+                    # 2-4 branches, some of one type (the label, not the type, says which branch a value is in)
+                    k = self.r.randint(2, 4)
+                    ts = [self.r.choice(pool) for _ in range(k)]
+                    i, j = self.r.sample(range(k), 2)
+                    ts[j] = ts[i]
+                    if k == 4 and self.chance(0.4): ts[self.r.randrange(4)] = ts[i]
+                else:
+                    ts = self.r.sample(pool, self.r.randint(1, min(3, len(pool))))
                 fs = [[self.fresh("t"), t] for t in ts]
                 self.tops.append(["unidef", n, fs]); self.unis.append((n, [(f, t) for f, t in fs]))
         if self.on("exn"):
@@ -1174,6 +1260,9 @@ class Gen:
             n = self.fresh("c")
             e = self.expr(ty, 2, 0)
             self.tops.append(["const", n, ty, e]); self.vars.append(Var(n, ty, False, 0))
+            if ty == "mi":
+                cv = self.cval(e)
+                self.vars[-1].cval = cv if cv is not None else None
         else:
             n = self.fresh("g")
             e = self.expr(ty, 2, 1)
@@ -1199,6 +1288,7 @@ class Gen:
             if self.on("return") and self.chance(0.3) and not (isinstance(res, list) and res[0] == "gen"):
                 # an early return under a simple condition, somewhere among the statements
                 stmts.insert(self.r.randint(0, len(stmts)), ["if", self.simple_cond(), ["ret", self.expr(res, 1, 1)], ["unit"]])
+                fr.has_ret = True
         self.loop, self.hot, self.in_try, self.handler_vars = saved
         del self.vars[base:]
         return stmts + [final]
@@ -1276,7 +1366,9 @@ class Gen:
         else:
             items = self.fun_body(fr, params, res, d, style)
         self.frames.pop()
-        f.level = max(fr.level, f.level); f.throws = fr.throws
+        f.level = max(fr.level, f.level); f.throws = fr.throws; f.has_ret = fr.has_ret
+        if res != "unit" and not (isinstance(res, list) and res[0] == "gen"):
+            items[-1] = self.no_bare_const(items[-1], res)
         items = fr.prologue + items          # hoisted locals of whatever the body needed
         body = ["seq"] + items if len(items) > 1 or items[0][0] in ("decl", "exit") else items[0]
         self.tops.append(["fn", name, params, res, fr.frees, body])
@@ -1349,7 +1441,7 @@ class Gen:
             for x, t in params + extra_vars: self.vars.append(Var(x, t, False, 1))
             saved_fns = self.fns
             self.fns = [f for f in saved_fns if not f.throws]
-            body = self.expr(res, 2, 1)
+            body = self.no_bare_const(self.expr(res, 2, 1), res)
             if allow_self and i > 0 and self.chance(0.8):
                 j = self.r.randrange(i)
                 m2, a2, r2 = sigs[j]
@@ -1414,6 +1506,70 @@ class Gen:
         self.tops.append(["stmt", ["forgen", x, self.call(g, 1, 0), body]])
         self.tops.append(["stmt", ["print", [["nl"]]]])
 
+    def showcase_union(self, un, fs):
+        """a union value built in its LAST branch of a repeated type, examined label by label in a procedure
+        that also re-assigns every branch of the (shared) object; the caller looks again afterwards"""
+        u = T_named(un)
+        tys = [t for _, t in fs]
+        dup = [i for i, t in enumerate(tys) if tys.count(t) > 1]
+        i0 = dup[-1] if dup else self.r.randrange(len(fs))
+        g = self.fresh("g")
+        self.tops.append(["var", g, u, ["uni", un, fs[i0][0], self.lit(fs[i0][1])]])
+        self.vars.append(Var(g, u, True, 0))
+        name = self.fresh("f"); x = self.fresh("x")
+        fr = Frame(1, ret="unit"); self.frames.append(fr)
+        base = len(self.vars)
+        self.vars.append(Var(x, u, False, 1))
+        def look():
+            items = [["print", [["strlit", un + " is"]] + sum(([["strlit", " "], ["case", ["var", x], f]] for f, _ in fs), []) + [["nl"]]]]
+            for f, t in fs:
+                if t in SCALARS or (isinstance(t, list) and t[0] == "list"):
+                    items.append(self.mk_if(["case", ["var", x], f], ["print", [["strlit", f + "="], ["uget", ["var", x], f], ["nl"]]], ["unit"], 2))
+            return items
+        items = look()
+        order = list(range(len(fs))); self.r.shuffle(order)
+        for i in order:
+            f, t = fs[i]
+            items.append(["setfield", ["var", x], f, self.lit(t)])
+            items += look() if self.chance(0.6) else []
+        items.append(["print", [["strlit", name + " done"], ["nl"]]])
+        del self.vars[base:]
+        self.frames.pop()
+        self.tops.append(["fn", name, [[x, u]], "unit", fr.frees, ["seq"] + fr.prologue + items])
+        fn = Fn(name, [u], "unit"); fn.level = 2
+        self.fns.append(fn)
+        self.tops.append(["stmt", ["call", name, [u], "unit", [["var", g]]]])
+        # the caller sees the branch the procedure left the shared object in
+        self.tops.append(["stmt", ["print", [["strlit", g + " is"]] + sum(([["strlit", " "], ["case", ["var", g], f]] for f, _ in fs), []) + [["nl"]]]])
+        # and a fresh value in every branch, passed directly
+        for f, t in fs:
+            if self.chance(0.5):
+                self.tops.append(["stmt", ["call", name, [u], "unit", [["uni", un, f, self.lit(t)]]]])
+
+    CHUNKS = [2**31, 2**32, 3 * 2**31, 2**40, 2**62, -(2**32), 2**62 + 5, 2**33, 5 * 2**31, -(2**31), 2**62 + 2**31]
+
+    def showcase_chunks(self):
+        """machine-integer constants that are multiples of 2^31 or have a zero middle chunk, printed and
+        used in arithmetic - between constants (folded by the optimiser) and with a variable"""
+        if not self.on("mi"): return
+        r = self.r
+        g = self.fresh("g")
+        self.tops.append(["var", g, "mi", mi(r.choice([1, 2, 3, 7, -1]))])
+        self.vars.append(Var(g, "mi", True, 0))
+        for _ in range(r.randint(2, 4)):
+            a, b = r.choice(self.CHUNKS), r.choice(self.CHUNKS)
+            op = r.choice(["add", "sub", "mul", "quo", "rem", "max", "min"])
+            items = [mi(a), ["strlit", " "], self.no_fold_overflow(["bin", op, mi(a), mi(b)]), ["strlit", " "],
+                     ["bin", r.choice(["add", "sub", "mul"]), ["var", g], mi(b)], ["strlit", " "],
+                     ["bin", r.choice(["lt", "eq", "ge"]), mi(a), ["bin", "add", mi(b), ["var", g]]]]
+            if self.on("int") and r.random() < 0.5:
+                items += [["strlit", " "], ["bin", "mul", ["un", "toint", mi(a)], ["int", b]]]
+            self.tops.append(["stmt", ["print", items + [["nl"]]]])
+        c = self.fresh("c")
+        ce = self.no_fold_overflow(["bin", r.choice(["add", "mul", "sub"]), mi(r.choice(self.CHUNKS)), mi(r.choice(self.CHUNKS))])
+        self.tops.append(["const", c, "mi", ce])
+        self.vars.append(Var(c, "mi", False, 0)); self.vars[-1].cval = self.cval(ce)
+
     def showcase_calls(self):
         """call every overload of an overloaded name and every macro at least once"""
         names = [f.name for f in self.fns]
@@ -1448,7 +1604,7 @@ class Gen:
         self.vars = [v for v in self.vars if not v.mut and v.depth == 0] + [Var(x, a, False, 1)]
         fr = Frame(1, ret=ty); self.frames.append(fr)
         saved_hv, self.handler_vars = self.handler_vars, []
-        body.append(self.expr(ty, 1, 0))
+        body.append(self.no_bare_const(self.expr(ty, 1, 0), ty))
         self.handler_vars = saved_hv
         self.frames.pop()
         self.vars = saved
@@ -1465,7 +1621,7 @@ class Gen:
 
     def pure_rhs(self, ty):
         if ty in ("mi", "int") and self.chance(0.5):
-            return ["bin", self.r.choice(["add", "sub", "mul"]), self.lit(ty), self.lit(ty)]
+            return self.no_fold_overflow(["bin", self.r.choice(["add", "sub", "mul"]), self.lit(ty), self.lit(ty)])
         return self.lit(ty)
 
     def dead_local(self, ty, init):
@@ -1522,7 +1678,7 @@ class Gen:
         for _ in range(self.r.randint(1, 3)):
             items += self.deadstore_shape()
             if self.chance(0.4): items.append(self.print_stmt(1))
-        items.append(self.print_stmt(1) if res == "unit" else self.expr(res, 1, 1))
+        items.append(self.print_stmt(1) if res == "unit" else self.no_bare_const(self.expr(res, 1, 1), res))
         self.frames.pop()
         del self.vars[base:]
         items = fr.prologue + items
@@ -1587,6 +1743,10 @@ class Gen:
         s = self.size
         self.def_types()
         for _ in range(self.r.randint(1, 1 + s)): self.def_global()
+        if self.on("uni"):
+            for un, fs in self.unis:
+                if self.chance(0.7): self.showcase_union(un, fs)
+        if self.chance(0.5): self.showcase_chunks()
         if self.on("overload") and self.chance(0.6): self.def_overloads()
         for _ in range(self.r.randint(1, 1 + s)):
             self.def_fun()
@@ -1713,6 +1873,28 @@ def node_size(x):
 
 SIMPLE = [["mi", 0], ["int", 0], ["bool", 0], ["bool", 1], ["strlit", ""], ["unit"], ["mi", 1], ["int", 1]]
 
+def _assigned(x, acc):
+    if isinstance(x, list) and x:
+        if x[0] == "assign" and len(x) == 3 and isinstance(x[1], str):
+            acc.add(x[1])
+        if x[0] == "lam":          # a closure's own `free` list covers what it assigns
+            return
+        for y in x:
+            _assigned(y, acc)
+
+def normalize_frees(x):
+    """drop `free` names a function or closure no longer assigns (keeps shrunk programs natural)"""
+    if not isinstance(x, list) or not x:
+        return x
+    y = [normalize_frees(c) for c in x]
+    if y[0] == "fn" and len(y) == 6 and isinstance(y[4], list):
+        acc = set(); _assigned(y[5], acc)
+        y[4] = [n for n in y[4] if n in acc]
+    elif y[0] == "lam" and len(y) == 5 and isinstance(y[3], list):
+        acc = set(); _assigned(y[4], acc)
+        y[3] = [n for n in y[3] if n in acc]
+    return y
+
 def shrink(prog, pred, budget=400, log=None):
     """smallest program found (by tree size) on which `pred` still holds.  `pred(list of progs)`
     returns a list of booleans (batch form, so the model can be asked for many candidates at once)."""
@@ -1722,7 +1904,7 @@ def shrink(prog, pred, budget=400, log=None):
         nonlocal best, used
         if not cands:
             return False
-        cands = cands[:max(1, budget - used)]
+        cands = [normalize_frees(c) for c in cands[:max(1, budget - used)]]
         used += len(cands)
         oks = pred(cands)
         good = [c for c, ok in zip(cands, oks) if ok]
